@@ -9,11 +9,15 @@ Decided clause:
       appended to the product that starts with a backslash is either a constant two-unit escape whose letter is one of
       " \\ / b f n r t, or `\\u` followed by exactly four to_hex_digit results; an escape letter taken from a constant
       table is accepted only if every entry of the table is such a letter (the writer's table ⊆ the grammar's table)
+  R3  JSON numbers (lexed by boa_parser::lexer::number, like every numeric literal) get their value only from
+      correctly rounding library conversions (fast_float2, integer parsing, BigInt -> f64): the module performs no
+      floating-point arithmetic on partial results — a digit-by-digit `acc * 10.0 + d` rounds at every step and is one
+      ulp off for about a quarter of the 17-digit integers
 Not decided: the accepted language itself, the value mapping, the rest of JSON.stringify.
 """
 from facts import (cn, callee, cname, roots, op_local, taint, arg_hits, place_fields, provenance)
 
-CRATES = ["boa_engine"]
+CRATES = ["boa_engine", "boa_parser"]
 EXPLANATION = (
     "Dominance rule over the MIR of boa_engine::builtins::json::Json::parse: the script parser and the VM are reached "
     "only on the Ok edge of the serde_json pre-validation of the same string, after set_json_parse, with the "
@@ -168,7 +172,39 @@ def r2(db, rep):
     rep.floor("R2", "appends to the product in quote_json_string", n, 12)
 
 
+def r3(db, rep):
+    rep.rule("R3", "the number lexer computes no literal value by floating-point arithmetic: no f64/f32 Add / Sub / Mul / Div "
+                   "in boa_parser::lexer::number (values come from fast_float2::parse, from_str_radix and BigInt::to_f64)")
+    scanned = 0
+    n = 0
+    convs = 0
+    for f in db.fns.values():
+        if f.krate != "boa_parser" or "lexer::number" not in f.id or "::tests" in f.id:
+            continue
+        scanned += 1
+        k = 0
+        for b, t in f.calls():
+            c = callee(t) or ""
+            if c.startswith("fast_float2::") or c.endswith("from_str_radix") or c.endswith("to_f64"):
+                convs += 1
+        for b in sorted(f.reachable()):
+            for st in f.blocks[b]["s"]:
+                r = st["r"]
+                if r.get("k") in ("bin", "checked") and r.get("ty") in ("f64", "f32") and \
+                        str(r.get("op", "")).startswith(("Add", "Sub", "Mul", "Div", "Rem")):
+                    n += 1
+                    rep.ob("R3", f"{cname(f.id)}:float-arithmetic:{k}", False,
+                           f"{cname(f.id)} computes with floats ({r['op']} at {f.file}:{st.get('ln')}) while lexing a number: every "
+                           f"step rounds, so the literal's value is not the correctly rounded one (JSON.parse(\"92030920993190389\") "
+                           f"gives …400 instead of …380)", loc=f"{f.file}:{st.get('ln')}")
+                    k += 1
+    rep.analysed["R3.float arithmetic in the number lexer"] = n
+    rep.floor("R3", "functions of boa_parser::lexer::number scanned", scanned, 5)
+    rep.floor("R3", "correctly rounding conversion calls in the number lexer", convs, 3)
+
+
 def run(db, rep, tier):
+    r3(db, rep)
     r2(db, rep)
     rep.rule("R1", "Json::parse: ECMA-404 pre-validation (serde_json::from_str == Ok) dominates parsing and evaluation; JSON "
                    "parse mode is set; the compiler runs in json_parse mode")
